@@ -102,7 +102,7 @@ impl<'a> CkksMachine<'a> {
             COp::AddPlain(a, v) | COp::SubPlain(a, v) => if self.encodable(v, el(a).ct.scale(), el(a).level) { Ok(true) } else { Err("plaintext not encodable at this level") },
             COp::MultiplyPlain(a, v, s) => if self.encodable(v, *s, el(a).level) { Ok(self.scale_fits(el(a).ct.scale() * *s, el(a).level)) } else { Err("plaintext not encodable at this level") },
             COp::Relinearize(a) => if self.rlk.is_none() || el(a).ct.size() != 3 { Err("n/a") } else { Ok(true) },
-            COp::RescaleNext(a) => Ok(el(a).level + 1 < self.kit.levels.len()),
+            COp::RescaleNext(a) => Ok(el(a).level + 1 < self.kit.levels.len() && self.scale_fits(el(a).ct.scale() / *self.kit.level_qs(el(a).level).last().unwrap() as f64, el(a).level + 1)),
             COp::ModSwitchNext(a) => Ok(el(a).level + 1 < self.kit.levels.len() && self.scale_fits(el(a).ct.scale(), el(a).level + 1)),
         }
     }
